@@ -30,12 +30,13 @@ theorem v1Dot1Delim_pinned : Gen.Netconf.v1Dot1Delim = [40, 63, 109, 41, 94, 35,
 /-- the 1.0 delimiter is the literal `]]>]]>` (no regex metacharacter that is active outside a class) -/
 theorem v1Dot0Delim_pinned : Gen.Netconf.v1Dot0Delim = [93, 93, 62, 93, 93, 62] := by decide
 
-/-- the message-id pattern the scanner `firstId` stands for: `(?i)(?:message-id="(\d+)")` -/
-theorem messageIDPattern_pinned : Gen.Netconf.messageIDPattern = [40, 63, 105, 41, 40, 63, 58, 109, 101, 115, 115, 97, 103, 101, 45, 105, 100, 61, 34, 40, 92, 100, 43, 41, 34, 41] := by decide
+/-- the message-id pattern the scanner `firstId` stands for:
+`(?i)(?:message-id\s*=\s*["'](\d+)["'])` -/
+theorem messageIDPattern_pinned : Gen.Netconf.messageIDPattern = [40, 63, 105, 41, 40, 63, 58, 109, 101, 115, 115, 97, 103, 101, 45, 105, 100, 92, 115, 42, 61, 92, 115, 42, 91, 34, 39, 93, 40, 92, 100, 43, 41, 91, 34, 39, 93, 41] := by decide
 
 /-- the literal part the scanner folds over is the literal part of the source pattern -/
 theorem midPrefix_from_pattern :
-    midPrefix.map (·.1) = (Gen.Netconf.messageIDPattern.drop 7).take 12 := by decide
+    midPrefix.map (·.1) = (Gen.Netconf.messageIDPattern.drop 7).take 10 := by decide
 
 /-- id `0` means "no id" to the read loop, so the first id must not be 0 -/
 theorem initialMessageID_pos : 0 < Gen.Netconf.initialMessageID := by decide
